@@ -69,4 +69,12 @@ def r6_views(run, tree):
     cf.check_group_copy(run, tree)
 
 
-RULES = [r1_inplace_twins, r2_out, r3_rhs_not_written, r4_deep_copies, r6_views]
+def r7_end_to_end(run, tree):
+    run.rule("C17.R7", "end to end: x op= y on Arrays of every rank (0-d and empty included) keeps the object and its buffer and gives x the quantity x op y; "
+             "Vector op= updates the component buffers seen through every reference; the right operand (Vector, Array, array-valued or scalar Quantity "
+             "in another unit) denotes the same quantity afterwards, also when the operation is repeated", "D7 fold of core/array.py and core/vector.py with numpy ufuncs (out= writes into the buffer it is given) and pint units as models", "", floor=32)
+    from . import quantity_stack as qs
+    qs.check_inplace_stack(run, tree)
+
+
+RULES = [r1_inplace_twins, r2_out, r3_rhs_not_written, r4_deep_copies, r6_views, r7_end_to_end]
